@@ -227,4 +227,23 @@ CHECKS = {
                    "code's decision; only 'reported = behaviour' and 'rejected = unchanged' are judged.",
         assumptions=["projectors are only changed while writing is inactive", "unusable path = parent is a regular file (the sandbox runs as root, permission bits cannot make a path unusable)"],
     ),
+    "C20": dict(
+        pkg=".", hdir="root", test="TestVerif_C20", wal=True,
+        quick=dict(shards=16, checks=1500, timeout=600),
+        thorough=dict(shards=16, checks=25000, timeout=3000),
+        technique="stateful property-based testing (rapid): independent decoders of the three side files compared with the harness' event log per START..STOP cycle",
+        rule="rapid-generated histories (2-40 ops) on a real 1-3 channel AnySource: data blocks carrying 0..700 external-trigger counts (any int64 "
+             "incl. values containing newline bytes, more than one bufio buffer) and dropped-frame counts (with or without a frame-number jump), "
+             "interleaved with WriteControl START (LJH2.2/LJH3/none) / STOP / PAUSE / UNPAUSE / 'UNPAUSE label' / malformed requests and "
+             "state-label requests (labels with commas, spaces, '#', keywords); a skeleton of 2-3 full cycles with noise is used in 60% of cases. "
+             "non-trivial = >= 2 completed START..STOP cycles each holding >= 1 external trigger and >= 1 accepted label; distinct = FNV-64 of the case",
+        level_text="For every START..STOP cycle the external-trigger file must decode (one header line, little-endian int64s) to exactly the "
+                   "concatenation, in order, of the lists of all blocks processed while the reported state was active; the data-drop file to one "
+                   "'first-frame count' line per block that reported drops in that window; the experiment-state file to header, START, one line per "
+                   "accepted label request (incl. 'UNPAUSE label'), STOP, with non-decreasing time stamps inside the cycle's wall-clock window; "
+                   "a label accepted while idle, an open descriptor in the run directory after STOP, or any carried-over content is a violation.",
+        level_note="'Writing active' is the reported Active flag (a paused run is still active: its side files keep logging, as the code does). "
+                   "Files are created lazily, so a missing external-trigger/data-drop file is accepted when the cycle had no such event.",
+        assumptions=["labels are non-empty and contain no newline (the RPC layer rejects empty labels)"],
+    ),
 }
